@@ -1891,16 +1891,24 @@ def team_rules(chk, repo, tm):
     if cs is None:
         chk.ob("O13.1", "_copy_section returns the target it filled", True, CL, "no such helper any more: that the sections reach the descriptor is decided by the obligations above")
     else:
-        s3 = Sim(repo, externals=_TEAM_WORLD)
-        cfg = _Cfg()
-        cfg.read("/T/cars/v1/c1.ini")
-        target = {"kept": "x"}
-        got = OPAQUE
-        if len(params_of(cs)) == 4:
+        # the helper is called the way its callers call it: through an instance (a plain method, a @staticmethod and a @classmethod all bind themselves). The three roles
+        # (parser, section name, target dict) are decided by VALUE, not by parameter position or name: the order written today is tried first, then every other order - an order
+        # in which the parser is asked for a section of a dict, or a string is filled, does not evaluate.
+        decos = {(dotted(d) or "?").split(".")[-1] for d in cs.decorator_list}
+        n_roles = len(params_of(cs)) - (0 if "staticmethod" in decos else 1)
+        s3, target, got = Sim(repo, externals=_TEAM_WORLD), {"kept": "x"}, OPAQUE
+        for perm in (itertools.permutations(range(3)) if n_roles == 3 else ()):
+            sim_, cfg, tgt = Sim(repo, externals=_TEAM_WORLD), _Cfg(), {"kept": "x"}
+            cfg.read("/T/cars/v1/c1.ini")
+            roles = [cfg, "variables", tgt]
             try:
-                got = s3.call_value(s3.getattr(s3.construct(ClassRef(CL, tm), ["/T"], {}), cs.name), [cfg, "variables", target], {})
+                r = sim_.call_value(sim_.getattr(sim_.construct(ClassRef(CL, tm), ["/T"], {}), cs.name), [roles[i] for i in perm], {})
             except (CannotEval, Raised):
-                got = OPAQUE
+                r = OPAQUE
+            if perm == (0, 1, 2) or (r is not OPAQUE and sim_.known(tgt) and (r is tgt or tgt != {"kept": "x"})):  # another order counts only if it is seen to fill / return the dict
+                s3, target, got = sim_, tgt, r
+            if got is not OPAQUE and s3.known(target):
+                break
         if got is OPAQUE or not s3.known(target):
             chk.unknown("O13.1", f"_copy_section returns the target it filled: the helper could not be evaluated ({_why(s3)})", cs)
         else:
@@ -2790,6 +2798,8 @@ _RESOLVE_HELPER = ("    def _resolve_config_bases(self, config_bases):\n        
                    "            root_path = os.path.join(self.cars_dir, base)\n            root_paths.append(root_path)\n            config_paths.append(os.path.join(root_path, \"templates\"))\n"
                    "            config_file = os.path.join(root_path, \"config.ini\")\n            if io.exists(config_file):\n                base_config = self._config_loader(config_file)\n"
                    "                self._copy_section(base_config, \"variables\", config_base_vars)\n        return root_paths, config_paths, config_base_vars\n\n")
+_COPY_SECTION = ("    def _copy_section(self, cfg: \"configparser.ConfigParser\", section: str, target: MutableMapping[str, Any]) -> MutableMapping[str, Any]:\n"
+                 "        if section in cfg.sections():\n            for k, v in cfg[section].items():\n                target[k] = v\n        return target\n")
 _AC_HEAD = "def _apply_config(source_root_path, target_root_path, config_vars):\n"
 _TARGET_HELPER = "def _target_file(target_root, source_root, walked, name):\n    return os.path.normpath(os.path.join(target_root, os.path.relpath(walked, source_root), name))\n\n\n"
 
@@ -2921,4 +2931,18 @@ VARIANTS = [
       "        import collections\n\n        return dict(collections.ChainMap(self.node_variables, self.car.variables))"),
     V("h2 break: ChainMap with the car's variables first", "break", _P, "        variables = {}\n        variables.update(self.car.variables)\n        variables.update(self.node_variables)\n        return variables",
       "        import collections\n\n        return dict(collections.ChainMap(self.car.variables, self.node_variables))", "O13"),
+    V("h4 keep: _copy_section as a @staticmethod, bulk update, has_section (benign C13-b11)", "keep", _T, _COPY_SECTION,
+      "    @staticmethod\n    def _copy_section(cfg, section, target):\n        if cfg.has_section(section):\n            target.update(cfg[section])\n        return target\n"),
+    V("h4 break: ... that fills a copy of the target (config-base variables never reach the descriptor)", "break", _T, _COPY_SECTION,
+      "    @staticmethod\n    def _copy_section(cfg, section, target):\n        target = dict(target)\n        if cfg.has_section(section):\n            target.update(cfg[section])\n        return target\n", "O13.1"),
+    V("h4 break: ... in which the option defined first wins (an earlier config base beats a later one)", "break", _T, _COPY_SECTION,
+      "    @staticmethod\n    def _copy_section(cfg, section, target):\n        if cfg.has_section(section):\n            for k, v in cfg[section].items():\n                target.setdefault(k, v)\n        return target\n", "O13"),
+    [V("h4 keep: _copy_section as a @classmethod with the target first", "keep", _T, _COPY_SECTION,
+       "    @classmethod\n    def _copy_section(cls, target, cfg, section):\n        if cfg.has_section(section):\n            target.update(cfg[section])\n        return target\n"),
+     V("", "keep", _T, "self._copy_section(base_config, \"variables\", config_base_vars)", "self._copy_section(config_base_vars, base_config, \"variables\")"),
+     V("", "keep", _T, "self._copy_section(config, \"variables\", {})", "self._copy_section({}, config, \"variables\")")],
+    [V("h4 break: ... that empties the target first (only the last config base's variables survive)", "break", _T, _COPY_SECTION,
+       "    @classmethod\n    def _copy_section(cls, target, cfg, section):\n        if cfg.has_section(section):\n            target.clear()\n            target.update(cfg[section])\n        return target\n", "O13.1"),
+     V("", "break", _T, "self._copy_section(base_config, \"variables\", config_base_vars)", "self._copy_section(config_base_vars, base_config, \"variables\")"),
+     V("", "break", _T, "self._copy_section(config, \"variables\", {})", "self._copy_section({}, config, \"variables\")")],
 ]
